@@ -13,6 +13,9 @@ func TestProp_Stress(t *testing.T)     { PartStress.Run(t) }
 func TestRace_Stress(t *testing.T)     { PartStressRace.Run(t) }
 func TestProp_Tie(t *testing.T)        { PartTie.Run(t) }
 func TestRace_Tie(t *testing.T)        { PartTieRace.Run(t) }
+func TestProp_Mass(t *testing.T)       { PartMass.Run(t) }
+func TestRace_Mass(t *testing.T)       { PartMassRace.Run(t) }
+func TestProp_Long(t *testing.T)       { PartLong.Run(t) }
 
 func TestReplay(t *testing.T) {
 	PartCtl.Replay(t, 1)
@@ -20,4 +23,7 @@ func TestReplay(t *testing.T) {
 	PartStressRace.Replay(t, 50)
 	PartTie.Replay(t, 20)
 	PartTieRace.Replay(t, 20)
+	PartMass.Replay(t, 20)
+	PartMassRace.Replay(t, 20)
+	PartLong.Replay(t, 1)
 }
